@@ -59,6 +59,23 @@ class Client(base_client.BaseClient):
                                string of Socket.IO requests as a cache-busting
                                measure. Set to ``False`` to disable.
     """
+    def __init__(self, *args, **kwargs):
+        super().__init__(*args, **kwargs)
+        self._state_lock = threading.Lock()
+
+    def _leave_connected_state(self):
+        """Move from 'connected' to 'disconnecting'.
+
+        The application, the read loop and the CLOSE packet handler can all
+        end a connection, from different threads. Only the one for which
+        this method returns ``True`` goes on to report the disconnect.
+        """
+        with self._state_lock:
+            if self.state != 'connected':
+                return False
+            self.state = 'disconnecting'
+            return True
+
     def connect(self, url, headers=None, transports=None,
                 engineio_path='engine.io'):
         """Connect to an Engine.IO server.
@@ -119,10 +136,10 @@ class Client(base_client.BaseClient):
         :param abort: If set to ``True``, do not wait for background tasks
                       associated with the connection to end.
         """
-        if self.state == 'connected':
-            self._send_packet(packet.Packet(packet.CLOSE))
+        if self._leave_connected_state():
+            # (queued directly: _send_packet() takes nothing any more)
+            self.queue.put(packet.Packet(packet.CLOSE))
             self.queue.put(None)
-            self.state = 'disconnecting'
             self._trigger_event('disconnect',
                                 reason or self.reason.CLIENT_DISCONNECT,
                                 run_async=False)
@@ -500,8 +517,7 @@ class Client(base_client.BaseClient):
         if self.write_loop_task:  # pragma: no branch
             self.logger.info('Waiting for write loop task to end')
             self.write_loop_task.join()
-        if self.state == 'connected':
-            self.state = 'disconnecting'
+        if self._leave_connected_state():
             self._trigger_event('disconnect', self.reason.TRANSPORT_ERROR,
                                 run_async=False)
             try:
@@ -555,8 +571,7 @@ class Client(base_client.BaseClient):
         if self.write_loop_task:  # pragma: no branch
             self.logger.info('Waiting for write loop task to end')
             self.write_loop_task.join()
-        if self.state == 'connected':
-            self.state = 'disconnecting'
+        if self._leave_connected_state():
             self._trigger_event('disconnect', self.reason.TRANSPORT_ERROR,
                                 run_async=False)
             try:
